@@ -44,6 +44,14 @@ def _calls(fn, text):
 
 
 def check(ctx, rep):
+    # the search for the next statement boundary is token-aware: a 0x00 or 0x3A byte inside a number or line-number token is
+    # not a separator (skip_to_read knows the payload lengths; a plain byte scan does not)
+    stt_ = ctx.fn('pcbasic/basic/base/codestream.py:TokenisedStream.skip_to_token')
+    seps = [a for a in own_nodes(stt_) if isinstance(a, ast.Assign) and norm(a.targets[0]) == 'separator']
+    plain = [c for c in own_nodes(stt_) if isinstance(c, ast.Call) and norm(c.func) in ('self.read_to',)]
+    rep.ob('scan.separator-search-token-aware', 'skip_to_token finds the statement separator with skip_to_read(tk.END_STATEMENT)',
+           [norm(a.value) for a in seps] == ['self.skip_to_read(tk.END_STATEMENT)'] and not plain,
+           'a plain byte scan takes a 0x00 / 0x3A byte inside a number token for a separator: the DATA statement on the next line is skipped', ctx.where(stt_))
     from ..sigils import check as _sigils
     _sigils(ctx, rep, ['pcbasic/basic/interpreter.py:Interpreter.read_'], 1)
     # ---- one pointer, closed set of writers -------------------------------------------------------------
@@ -204,6 +212,9 @@ def variants(ctx):
     def rs(f):
         return lambda tree: f(mu.find_def(tree, 'Interpreter.restore_'))
     return [
+        Va('separator-search-by-plain-byte-scan', 'break', 'pcbasic/basic/base/codestream.py',
+           lambda tree: mu.replace_stmt(mu.find_def(tree, 'TokenisedStream.skip_to_token'), mu.text_is('separator = self.skip_to_read(tk.END_STATEMENT)'), 'self.read_to(tk.END_STATEMENT)\nseparator = self.read(1)'),
+           expect='scan.separator-search-token-aware'),
         Va('data-keyword-without-blank-skip', 'break', 'pcbasic/basic/base/codestream.py',
            lambda tree: mu.remove_stmt(mu.find_def(tree, 'TokenisedStream.skip_to_token'), mu.text_is('self.skip_blank()')), expect='scan.keyword'),
         Va('unsigned-data-items-only', 'break', 'pcbasic/basic/base/codestream.py',
